@@ -116,6 +116,9 @@ var c22RejectKinds = []string{
 	"wrapped_failure", "unavailable", "unavailable_r", "wrapped_unavailable",
 	"plain", "typeerror", "slow",
 	"bearer_static", "xfcc", "proofgate", "chain",
+	// an authenticator may hand back a context together with its error; the
+	// error alone decides ("a non-nil error rejects the request")
+	"value+anonctx", "failure+identctx", "plain+identctx",
 }
 
 type c22Verdict struct {
@@ -159,6 +162,16 @@ func c22Rejecter(kind string) (vgirpc.AuthenticateFunc, c22Verdict) {
 			time.Sleep(2 * time.Millisecond)
 			return nil, &vgirpc.RpcError{Type: "ValueError", Message: "slow no"}
 		}, c22Verdict{status: 401}
+	case kind == "value+anonctx":
+		return func(*http.Request) (*vgirpc.AuthContext, error) {
+			return vgirpc.Anonymous(), &vgirpc.RpcError{Type: "ValueError", Message: "no"}
+		}, c22Verdict{status: 401}
+	case kind == "failure+identctx":
+		return func(*http.Request) (*vgirpc.AuthContext, error) {
+			return c22Alice(), vgirpc.NewAuthFailure(vgirpc.AuthReasonInsufficientScope, "scope")
+		}, c22Verdict{status: 401, reason: "insufficient_scope"}
+	case kind == "plain+identctx":
+		return func(*http.Request) (*vgirpc.AuthContext, error) { return c22Alice(), errors.New("lookup failed") }, c22Verdict{status: 500}
 	case kind == "bearer_static":
 		return vgirpc.BearerAuthenticateStatic(map[string]*vgirpc.AuthContext{"good-token": c22Alice()}), c22Verdict{status: 401}
 	case kind == "xfcc":
